@@ -61,7 +61,8 @@ RefEx(t, ex, i, accS, accD) ==
             IF ~a.ok THEN [ok |-> FALSE, s |-> accS, d |-> accD]
             ELSE RefEx(t, ex, i + 1, RMul(accS, RPow(a.s, ex[k])), <<accD[1] + ex[k] * a.d[1], accD[2] + ex[k] * a.d[2]>>)
 \* an object is STALE when its spelling no longer means what the object holds (it was labelled before an edit)
-Stale(t, o) == LET r == RefEx(t, o.ex, 1, ROne, <<0, 0>>) IN ~r.ok \/ r.s # o.s \/ r.d # o.d
+\* (a quantity written in a library unit the histories never edit - plain = FALSE - is never stale)
+Stale(t, o) == o.plain /\ LET r == RefEx(t, o.ex, 1, ROne, <<0, 0>>) IN ~r.ok \/ r.s # o.s \/ r.d # o.d
 
 SInit == /\ Init /\ objs = <<>> /\ aux = <<>> /\ sres = None
 
@@ -74,13 +75,13 @@ Make(h, p) ==
   /\ ConstructAs([op |-> "make", str |-> p], p)
   /\ aux' = Append(aux, [h |-> h])
   /\ IF last'.k = "unit"
-     THEN LET o == [v |-> NewVal, s |-> last'.s, d |-> last'.d, ex |-> ExpOf(p), h |-> h] IN
+     THEN LET o == [v |-> NewVal, s |-> last'.s, d |-> last'.d, ex |-> ExpOf(p), h |-> h, plain |-> TRUE] IN
           /\ objs' = Append(objs, o) /\ sres' = ObjRes(o)
      ELSE /\ UNCHANGED objs /\ sres' = Raise
 
 (* ---- x.to(str) / x.in_units(str): the target string is read in x's own registry (handle) NOW; the factor is ---- *)
 (* ---- taken from the two Unit objects' own scales (unit_object._get_conversion_factor)                       ---- *)
-Converted(o, u, p) == [v |-> RDiv(SI(o), u.s), s |-> u.s, d |-> u.d, ex |-> ExpOf(p), h |-> o.h]
+Converted(o, u, p) == [v |-> RDiv(SI(o), u.s), s |-> u.s, d |-> u.d, ex |-> ExpOf(p), h |-> o.h, plain |-> TRUE]
 To(i, p) ==
   /\ i \in DOMAIN objs /\ Len(objs) < MaxObj
   /\ ConstructAs([op |-> "to", i |-> i, str |-> p], p)
@@ -134,7 +135,7 @@ Over(i, j) ==
   /\ sres' = [k |-> "obj", o |-> [v |-> RDiv(SI(objs[i]), SI(objs[j])), s |-> ROne, d |-> DSub(objs[i].d, objs[j].d)]]
 \* x.to(y.units) / x.convert_to_units(y.units): the target is a Unit OBJECT (another quantity's label, whatever its
 \* spelling means now); no string is read, the factor is taken from the two objects' own scales
-ConvertedU(o, t) == [v |-> RDiv(SI(o), t.s), s |-> t.s, d |-> t.d, ex |-> t.ex, h |-> o.h]
+ConvertedU(o, t) == [v |-> RDiv(SI(o), t.s), s |-> t.s, d |-> t.d, ex |-> t.ex, h |-> o.h, plain |-> t.plain]
 ToU(i, j) ==
   /\ i \in DOMAIN objs /\ j \in DOMAIN objs /\ Len(objs) < MaxObj
   /\ NoReg([op |-> "tou", i |-> i, j |-> j])
@@ -167,13 +168,44 @@ Pickle(i) ==
   /\ NoReg([op |-> "pickle", i |-> i])
   /\ UNCHANGED objs
   /\ LET r == ResolveEx(lut, objs[i].ex, 1, ROne, <<0, 0>>) IN
-     sres' = IF r.ok THEN [k |-> "obj", o |-> [v |-> objs[i].v, s |-> r.s, d |-> r.d]] ELSE Raise
+     sres' = IF ~objs[i].plain THEN ObjRes(objs[i])   \* written in a library unit the histories never edit
+             ELSE IF r.ok THEN [k |-> "obj", o |-> [v |-> objs[i].v, s |-> r.s, d |-> r.d]] ELSE Raise
 \* x.in_base("mks"): metres and seconds (not in the edited alphabet)
 InBase(i) ==
   /\ i \in DOMAIN objs
   /\ NoReg([op |-> "inbase", i |-> i])
   /\ UNCHANGED objs
   /\ sres' = [k |-> "obj", o |-> [v |-> SI(objs[i]), s |-> ROne, d |-> objs[i].d]]
+
+
+(* ---- a unit system of the registry's own symbols: UnitSystem(name, "foo", "kg", "qux", registry=r) ---- *)
+\* creating it reads the three rows (UnitSystem.__init__: registry[str(unit)]), nothing is written or memoised
+NewSys == /\ Log([op |-> "newsys"]) /\ aux' = Append(aux, [h |-> 0]) /\ UNCHANGED <<user, lut, ucache, edit, last, objs>> /\ sres' = Ok
+\* unyt_quantity(v, "m", registry=handle): written in a library unit that the histories never edit
+ZeroEx == [k \in Keys |-> 0]
+MakeM(h) ==
+  /\ Len(objs) < MaxObj
+  /\ Log([op |-> "makem"]) /\ aux' = Append(aux, [h |-> h]) /\ UNCHANGED <<user, lut, ucache, edit, last>>
+  /\ LET o == [v |-> NewVal, s |-> ROne, d |-> <<1, 0>>, ex |-> ZeroEx, h |-> h, plain |-> FALSE] IN
+     objs' = Append(objs, o) /\ sres' = ObjRes(o)
+\* x.in_base(name) / x.convert_to_base(name): Unit.get_base_equivalent builds the system's unit for x's dimension from the
+\* system's expressions (foo**a * qux**b) and reads it in the registry AS IT IS NOW (Unit(new_units, registry=...)); the
+\* factor comes from x's own scale.  (When x already is written that way the same object-level copy comes back; for a
+\* quantity whose spelling still means what it holds - the only ones the instance reduces - that is the same answer.)
+SysOk(t) == t["foo"].scale # 0 /\ t["foo"].dim = "L" /\ t[Sym2].scale # 0 /\ t[Sym2].dim = "T"
+SysScale(t, d) == RMul(RPow(R(t["foo"].scale), d[1]), RPow(R(t[Sym2].scale), d[2]))
+SysEx(d) == [k \in Keys |-> IF k = "foo" THEN d[1] ELSE IF k = Sym2 THEN d[2] ELSE 0]
+Reduced(t, o) == [v |-> RDiv(SI(o), SysScale(t, o.d)), s |-> SysScale(t, o.d), d |-> o.d, ex |-> SysEx(o.d), h |-> o.h, plain |-> TRUE]
+InSys(i) ==
+  /\ i \in DOMAIN objs /\ SysOk(user) /\ ~Stale(user, objs[i])
+  /\ NoReg([op |-> "insys", i |-> i])
+  /\ UNCHANGED objs
+  /\ sres' = ObjRes(Reduced(lut, objs[i]))
+ConvInSys(i) ==
+  /\ i \in DOMAIN objs /\ SysOk(user) /\ ~Stale(user, objs[i])
+  /\ NoReg([op |-> "convinsys", i |-> i])
+  /\ objs' = [objs EXCEPT ![i] = Reduced(lut, objs[i])]
+  /\ sres' = ObjRes(Reduced(lut, objs[i]))
 
 (* ==== property side (C12) on the abstract state ==== *)
 \* C12_Keep: registry calls and constructions leave every existing object as it was (frame), and a call on objects
@@ -187,7 +219,8 @@ RefConvU(a, b) == IF a.d = b.d THEN [k |-> "obj", o |-> [v |-> RDiv(RMul(a.v, a.
 RefCmp(c, a, b) == IF a.d # b.d THEN (IF c = "eq" THEN [k |-> "bool", b |-> FALSE] ELSE Raise)
                    ELSE [k |-> "bool", b |-> IF c = "eq" THEN RMul(a.v, a.s) = RMul(b.v, b.s) ELSE RLt(RMul(a.v, a.s), RMul(b.v, b.s))]
 RefSame(a) == [k |-> "obj", o |-> a]
+RefSys(t, a) == [k |-> "obj", o |-> [v |-> RDiv(RMul(a.v, a.s), SysScale(t, a.d)), s |-> SysScale(t, a.d), d |-> a.d]]
 RefBase(a) == [k |-> "obj", o |-> [v |-> RMul(a.v, a.s), s |-> ROne, d |-> a.d]]
 \* model-level verdict: pickling is the one transition of the transcription that does not keep what the object denotes
-PickleKeeps(i) == LET r == ResolveEx(lut, objs[i].ex, 1, ROne, <<0, 0>>) IN r.ok /\ r.s = objs[i].s /\ r.d = objs[i].d
+PickleKeeps(i) == ~objs[i].plain \/ LET r == ResolveEx(lut, objs[i].ex, 1, ROne, <<0, 0>>) IN r.ok /\ r.s = objs[i].s /\ r.d = objs[i].d
 =============================================================================
